@@ -236,7 +236,11 @@ pub async fn read_http_request<const BUF_SIZE: usize>(
         .remove_only("expect")
         .map_or(false, |s| s.as_str() == "100-continue");
     let (gzip, chunked) = {
-        let opt_ascii_string = head.headers.remove_only("transfer-encoding");
+        let mut values = head.headers.remove_all("transfer-encoding");
+        if values.len() > 1 {
+            return Err(HttpError::UnsupportedTransferEncoding);
+        }
+        let opt_ascii_string = values.pop();
         let mut iter = opt_ascii_string
             .as_ref()
             .map(AsciiString::as_str)
@@ -268,10 +272,14 @@ pub async fn read_http_request<const BUF_SIZE: usize>(
             }
         }
     }
-    let content_length = if let Some(s) = head.headers.get_only("content-length") {
-        Some(s.parse().map_err(|_| HttpError::InvalidContentLength)?)
-    } else {
-        None
+    // https://datatracker.ietf.org/doc/html/rfc7230#section-3.3.2
+    //     Content-Length = 1*DIGIT
+    let content_length = match head.headers.get_all("content-length").as_slice() {
+        [] => None,
+        [s] if !s.is_empty() && s.bytes().all(|b| b.is_ascii_digit()) => {
+            Some(s.parse().map_err(|_| HttpError::InvalidContentLength)?)
+        }
+        _ => return Err(HttpError::InvalidContentLength),
     };
     #[allow(clippy::match_same_arms)]
     // https://datatracker.ietf.org/doc/html/rfc7230#section-3.3
